@@ -153,6 +153,9 @@ pub enum FaultAddr {
     Stmt { stmt: StmtId, occ: u32, ordinal: u32 },
     /// the `nth` operation of (class, seam kind) of the whole run (0-based)
     Global { nth: u32 },
+    /// the `nth` operation of (class, seam kind) of the whole run and every one after
+    /// it: a device that has failed for good (closed pipe, full disk, dead terminal)
+    From { nth: u32 },
 }
 
 #[derive(Clone, Copy, Debug, PartialEq, Eq, Hash, PartialOrd, Ord)]
@@ -438,6 +441,7 @@ impl World {
             }
             let hit = match f.addr {
                 FaultAddr::Global { nth: n } => n == nth,
+                FaultAddr::From { nth: n } => nth >= n,
                 FaultAddr::Stmt { stmt, occ, ordinal: ord } => {
                     self.cur_stmt == Some((stmt, occ)) && ordinal == Some(ord)
                 }
